@@ -4,7 +4,7 @@ from hypothesis import strategies as st
 
 from .. import gen
 from ..core import SubCheck, Violation
-from ..oracle import LAZY_CHOICES, lib, np_rows, np_flat, lazy_ra, expect_refused, expect_unchanged, jsonable, arrays_equal, same_scalar
+from ..oracle import LAZY_CHOICES, lib, lib_twice, np_rows, np_flat, lazy_ra, expect_refused, expect_unchanged, jsonable, arrays_equal, same_scalar
 
 RULE = ("Cases = (row-length vector with empty rows in any position incl. all-empty and zero rows, dtype among "
         "bool/int8..uint64/float32/float64 with exact dyadic floats plus inf/nan, reduction, spelling in {method, "
@@ -98,7 +98,7 @@ def body_named(case, ctx):
             filler = f(first)
             exp = lib(lambda: np.array([f(r) if len(r) else filler for r in rows]))
             only = ne
-        got = lib(call, ra, name, spell, axis, keep)
+        got = lib_twice(call, ra, name, spell, axis, keep)
     info = dict(f=name, spell=spell)
     if not exp.ok:
         ctx.label("numpy-refuses")
@@ -132,7 +132,7 @@ def body_ufunc(case, ctx):
     with np.errstate(all="ignore"):
         # numpy decides acceptance on the operand's dtype, not on its content
         exp = lib(lambda: np.array([uf.reduce(r) for r in rows]) if n else (uf.reduce(np_flat(a)[:0]), np.zeros(0))[1])
-        got = lib(lambda: uf.reduce(ra, axis=axis))
+        got = lib_twice(lambda: uf.reduce(ra, axis=axis))
     if not exp.ok:
         ctx.label("numpy-refuses")
         if n:   # with zero rows "for every row" is vacuous: nothing is asserted
@@ -163,7 +163,7 @@ def body_arg(case, ctx):
     ra = lazy_ra(rows, a["dt"], case["lz"])
     f = getattr(np, name)
     exp_ne = np.array([f(r) for r in rows if len(r)])
-    got = lib(lambda: getattr(ra, name)(axis=axis) if spell == "method" else f(ra, axis=axis))
+    got = lib_twice(lambda: getattr(ra, name)(axis=axis) if spell == "method" else f(ra, axis=axis))
     if not got.ok:
         raise Violation("arg:unexpected-refusal", got=got.brief(), f=name)
     v = np.asarray(got.value)
@@ -247,7 +247,7 @@ def body_float_sum(case, ctx):
     ra = lazy_ra(rows, a["dt"], case["lz"])
     eps = np.finfo(a["dt"]).eps
     with np.errstate(all="ignore"):
-        got = lib(lambda: getattr(ra, name)(axis=-1) if case["spell"] == "method" else getattr(np, name)(ra, axis=-1))
+        got = lib_twice(lambda: getattr(ra, name)(axis=-1) if case["spell"] == "method" else getattr(np, name)(ra, axis=-1))
     if not got.ok:
         raise Violation("float-sum:unexpected-refusal", got=got.brief())
     v = np.asarray(got.value)
